@@ -1,61 +1,18 @@
-import RModel.Base.Bytes
-import RModel.Base.Utf8
-import RModel.Model.Edits
-import RModel.Model.Apply
-import Driver.Wire
+import Driver.OpsApply
 /-
   rmodel: the executable side of the Lean model.  One request per line on stdin, one canonical
   result line on stdout; the same lines go to the Rust harness and the two streams are diffed.
+  Each `Driver/Ops*.lean` owns some operations and exposes `dispatch : List String → Option String`.
 -/
-open B
 
-def natOf (s : String) : Option Nat := s.toNat?
-
-namespace Ops
-
-def parseEdits : List String → Option (List Edits.Edit)
-  | [] => some []
-  | b :: a :: s :: e :: rest =>
-    match ofHex b, ofHex a, natOf s, natOf e, parseEdits rest with
-    | some b, some a, some s, some e, some r => some ({ before := b, after := a, start := s, stop := e } :: r)
-    | _, _, _, _, _ => none
-  | _ => none
-
-def edits : List String → String
-  | orig :: rest =>
-    match ofHex orig, parseEdits rest with
-    | some o, some es =>
-      if es.isEmpty then s!"ok {hexOrDash o}"
-      else if !Utf8.valid o then "unreadable"
-      else match Edits.applyEdits o es with
-        | .ok r => s!"ok {hexOrDash r}"
-        | .error .panic => "panic"
-        | .error .mismatch => "mismatch"
-    | _, _ => "bad-req"
-  | _ => "bad-req"
-
-/-- `applytree T n … H n … R n …` -/
-def applytree (fs : List String) : String :=
-  match Wire.tree? fs with
-  | none => "bad-req"
-  | some (t, r1) =>
-    match Wire.hunks? r1 with
-    | none => "bad-req"
-    | some (hs, r2) =>
-      match Wire.rens? r2 with
-      | some (rs, []) =>
-        let r := Apply.applyPlan t { hunks := hs, rens := rs }
-        s!"{Wire.showOutcome r.outcome} {Wire.showTree r.tree}"
-      | _ => "bad-req"
-
-end Ops
+def handlers : List (List String → Option String) :=
+  [ OpsApply.dispatch
+  ]
 
 def dispatch (fields : List String) : String :=
   match fields with
-  | "edits" :: rest => Ops.edits rest
-  | "applytree" :: rest => Ops.applytree rest
   | "ping" :: _ => "pong"
-  | _ => "bad-op"
+  | _ => (handlers.findSome? (fun h => h fields)).getD "bad-op"
 
 partial def loop (h : IO.FS.Stream) (out : IO.FS.Stream) : IO Unit := do
   let line ← h.getLine
